@@ -348,6 +348,8 @@ func runC01(r *mon.Run, replay string) {
 	if st, ok := replayStream(replay); ok {
 		// (VERIF_SEED, stream) determines a case completely
 		switch {
+		case st >= 940000:
+			runHeavyShortScenario(r, st)
 		case st >= 930000:
 			runOakBoundaryScenario(r, st)
 		case st >= 920000:
@@ -416,6 +418,8 @@ func runC01(r *mon.Run, replay string) {
 	parallel(r.Pick(80, 1200), func(i int) { runGhostScenario(r, uint64(920000+i)) })
 	parallel(r.Pick(3, 16), func(i int) { runOakBoundaryScenario(r, uint64(930000+i)) })
 	r.Floor("oak_boundary_histories", 2)
+	parallel(r.Pick(12, 150), func(i int) { runHeavyShortScenario(r, uint64(940000+i)) })
+	r.Floor("heaviest_shorter_than_longest_histories", 6)
 	r.Extra("invalid_fork_scenarios_enumerated", len(scs))
 	for _, reg := range regimes {
 		r.Floor("rollbacks_observed:"+reg, 1)
